@@ -122,7 +122,35 @@ pub fn mutate(r: &mut Rng, txt: &str) -> String {
             }
             14 => {
                 // metadata mutations
-                lines.insert(0, r.pick(&["#META", "#META :", "#META a", "#META CTE_AREAREF: -5", "#META CTE_KEXP: abc", "#CTE_", "#META CTE_LOCALIZACION: MARTE", "#META CTE_RED1: 1, 2", "#META CTE_RED2: {ren: x}", "#METAé: ü"]).to_string());
+                lines.insert(
+                    0,
+                    r.pick(&[
+                        "#META",
+                        "#META :",
+                        "#META a",
+                        "#META CTE_AREAREF: -5",
+                        "#META CTE_KEXP: abc",
+                        "#CTE_",
+                        "#META CTE_LOCALIZACION: MARTE",
+                        "#META CTE_RED1: 1, 2",
+                        "#META CTE_RED2: {ren: x}",
+                        "#METAé: ü",
+                        "#META CTE_RED1: { ren: 0.0, nren: 1.3, co2 }",
+                        "#META CTE_RED2: {}",
+                        "#META CTE_RED1: {, 1.3, 0.3",
+                        "#META CTE_RED2: { ren: 1, nren: 2, co2: 3, }",
+                        "#META CTE_RED1: (1, 2, 3",
+                        "#META CTE_RED1: ((0.5, 0.5, 0.1))",
+                        "#META CTE_RED2: { : }",
+                        "#META CTE_RED1: {ren}",
+                        "#META CTE_RED1: ,,",
+                        "#META CTE_RED2: { ren: 0.5, nren: 0.6, co2: 0.1 }",
+                        "#META CTE_AREAREF:",
+                        "#META CTE_KEXP: 1e-400",
+                        "#META CTE_AREAREF: 1e400",
+                    ])
+                    .to_string(),
+                );
             }
             _ => {
                 // remove every line of one kind (e.g. all SALIDA lines of a system with AUX)
@@ -172,4 +200,11 @@ pub fn seed_files(repo: &std::path::Path) -> (Vec<String>, Vec<String>) {
         }
     }
     (comps, facs)
+}
+
+/// hostile texts for the (ren, nren, co2) triple parser (metadata values, option values)
+pub fn triple_soup(r: &mut Rng) -> String {
+    let toks = ["{", "}", "(", ")", ",", ":", " ", "ren", "nren", "co2", "1", "0.5", "-1", "1e39", "nan", "x", "ren:", "nren: 1", "co2 }", "{ ren", "é", ""];
+    let n = 1 + r.usize(9);
+    (0..n).map(|_| *r.pick(&toks)).collect::<Vec<_>>().join(if r.chance(1, 2) { " " } else { "" })
 }
